@@ -35,6 +35,12 @@ def bases(rnd, n):
         ("echo-write-fails", [("data", 10, scen.HANDSHAKE + E(8, ref6455.close_payload(1000, b"")))] + [("timeout", 5120)] * 2, dict(_wf=["ok", "oserr"])),
         ("text-write-fails-then-close", [("data", 10, scen.HANDSHAKE)] + [("timeout", 5120)] * 3,
          dict(_wf=["ok", "oserr", "oserr"], _app={2: [("text", b"x", False)], 3: [("close", 1000, b"")]})),
+        # events of the loop that come BEFORE Ready: the upgrade reply is broken (no timer has been started, no pong seen yet)
+        ("oversize-reply-unterminated", [("data", 10, b"HTTP/1.1 101 Switching Protocols\r\nX-Pad: " + b"p" * 17000)] + [("timeout", 5120)] * 2, {}),
+        ("oversize-reply-terminated", [("data", 10, b"HTTP/1.1 101 Switching Protocols\r\nX-Pad: " + b"p" * 17000 + b"\r\n\r\n")] + [("timeout", 5120)], {}),
+        ("oversize-reply-in-pieces", [("data", 10, b"HTTP/1.1 101 Switching Protocols\r\nX-Pad: " + b"p" * 9000), ("timeout", 5120), ("data", 10, b"q" * 9000)] + [("timeout", 5120)], {}),
+        ("reply-then-silence", [("data", 10, scen.HANDSHAKE[:40])] + [("timeout", 5120)] * 3, {}),
+        ("rejected-bad-accept", [("data", 10, ref6455.handshake_response(b"AAAAAAAAAAAAAAAAAAAAAAAAAAA="))] + [("timeout", 5120)], {}),
         # the upgrade request cannot be written
         ("request-write-fails", [("data", 10, scen.HANDSHAKE)], dict(_wf=["oserr"])),
     ]
